@@ -441,6 +441,26 @@ func trackURL(base, control string) string {
 
 // Play performs DESCRIBE / SETUP* / PLAY. udp selects UDP transport.
 func (c *RtspClient) Play(url string, udp bool, timeout time.Duration) (sdp Sdp, err error) {
+	if sdp, err = c.Prepare(url, udp, timeout); err != nil {
+		return sdp, err
+	}
+	return sdp, c.StartPlay(url, timeout)
+}
+
+// StartPlay sends the PLAY of a session that Prepare set up.
+func (c *RtspClient) StartPlay(url string, timeout time.Duration) error {
+	r, err := c.Request("PLAY", url, []string{"Range: npt=0.000-"}, nil, timeout)
+	if err != nil {
+		return err
+	}
+	if r.Status != 200 {
+		return fmt.Errorf("PLAY: status %d", r.Status)
+	}
+	return nil
+}
+
+// Prepare performs DESCRIBE / SETUP* only; the caller sends PLAY later (StartPlay).
+func (c *RtspClient) Prepare(url string, udp bool, timeout time.Duration) (sdp Sdp, err error) {
 	r, err := c.Request("DESCRIBE", url, []string{"Accept: application/sdp"}, nil, timeout)
 	if err != nil {
 		return sdp, err
@@ -469,13 +489,6 @@ func (c *RtspClient) Play(url string, udp bool, timeout time.Duration) (sdp Sdp,
 			return sdp, fmt.Errorf("SETUP track %d: status %d", i, r.Status)
 		}
 		c.noteServerPorts(r.Headers["transport"])
-	}
-	r, err = c.Request("PLAY", url, []string{"Range: npt=0.000-"}, nil, timeout)
-	if err != nil {
-		return sdp, err
-	}
-	if r.Status != 200 {
-		return sdp, fmt.Errorf("PLAY: status %d", r.Status)
 	}
 	return sdp, nil
 }
